@@ -6,7 +6,7 @@
     /\ (forall x, wfd c x = true -> fits c x = true -> esize c x = len (enc c x))
     /\ (forall bs x r r', dec c bs = Value x r -> fits c x = true -> dec c (enc c x ++ r') = Value x r'). *)
 From Coq Require Import ZArith List.
-From VB Require Import Serde.StreamDefs Serde.CodecSpec Serde.StreamProofs Serde.EntityDefs Serde.Theorems Serde.FitsProofs.
+From VB Require Import Serde.StreamDefs Serde.CodecSpec Serde.StreamProofs Serde.EntityDefs Serde.Theorems Serde.FitsProofs Serde.StoredDefs Serde.StoredTheorems.
 Local Open Scope Z_scope.
 
 Theorem C11_single_be_int64 : c11_ok c_single_be64.
@@ -125,3 +125,18 @@ Print Assumptions C11_full_ContextInfoContainer.
 Theorem C11_full_AuthenticatedContextInfoContainer : c11_full c_authctx.
 Proof. exact authctx_full. Qed.
 Print Assumptions C11_full_AuthenticatedContextInfoContainer.
+Theorem C11_full_VbkEndorsement : c11_full c_vbk_endorsement.
+Proof. exact vbk_endorsement_full. Qed.
+Print Assumptions C11_full_VbkEndorsement.
+Theorem C11_full_AltEndorsement : c11_full c_alt_endorsement.
+Proof. exact alt_endorsement_full. Qed.
+Print Assumptions C11_full_AltEndorsement.
+Theorem C11_full_StoredBlockIndex_Btc : c11_full c_stored_btc.
+Proof. exact stored_btc_full. Qed.
+Print Assumptions C11_full_StoredBlockIndex_Btc.
+Theorem C11_full_StoredBlockIndex_Vbk : c11_full c_stored_vbk.
+Proof. exact stored_vbk_full. Qed.
+Print Assumptions C11_full_StoredBlockIndex_Vbk.
+Theorem C11_full_StoredBlockIndex_Alt : c11_full c_stored_alt.
+Proof. exact stored_alt_full. Qed.
+Print Assumptions C11_full_StoredBlockIndex_Alt.
